@@ -122,3 +122,32 @@ def _mk_key_reflexive(prog, nan):
 
 _mk_key_reflexive('core', False)
 _mk_key_reflexive('core-nan', True)
+
+
+# ---------------------------------------------------------------------------------------------- C20: the stub a grown list leaves behind is sized as itself
+@obligation('C20.K1.forwarded_list_size', 'C20', programs=('core',), also=('C10',))
+def k1_forwarded_size(res, tier):
+    """a list built by the real allocation path with any capacity, forwarded once by the real List::grow to any larger capacity:
+    ObjectHandle::size (summed by every sweep into bytes_allocated) of the block left behind is the size that block was obtained
+    with — not the size of the block it forwards to — and the size of the new block is its own"""
+    res.bounds = {'length/capacity': 'any', 'forwarding hops': 1, 'representation': 'tagged enum'}
+    W = ListWorld('core')
+    e = W.e
+    P = W.P
+    f_size = P.lookup('ObjectHandle::size')
+
+    def handle_of(blk):
+        from .memabs import BlockPtr
+        return Struct('ObjectHandle', {0: Cell(BlockPtr(blk, bv(0, 64), 'u8'))}, None)
+
+    def path(e):
+        lst, blk0, seq, n, cap = W.new_list(e)
+        new, blk1, ncap = W.grow_once(e, lst, n, cap)
+        s0 = e.call(f_size, [Ref(Cell(handle_of(blk0)))])
+        e.check(s0 == blk0.size, 'the block a grown list leaves behind reports the size it was obtained with (not the size of the block it forwards to)',
+                {'obtained': str(z3.simplify(blk0.size))[:80], 'reported': str(z3.simplify(s0))[:80]})
+        s1 = e.call(f_size, [Ref(Cell(handle_of(blk1)))])
+        e.check(s1 == blk1.size, 'the new block of a grown list reports the size it was obtained with')
+        return {'fn': 'ObjectHandle::size', 'blocks': 2}
+    results = e.explore(path)
+    _finish(res, e, results, 'C20.K1:forwarded:')
